@@ -23,7 +23,14 @@ def cases(tier, seed):
             yield {"c": cd}
     for i in range(150 if tier == "quick" else 3000):
         cd = gen.random_circuit(rng, n_in=rng.randint(2, 5), n_gates=rng.randint(2, 11), max_fanin=rng.choice([2, 2, 3, 5]),
-                                p_const=0.0, p_out=rng.choice([0.0, 0.2]))
+                                p_const=rng.choice([0.0, 0.0, 0.4]), p_out=rng.choice([0.0, 0.2]))
+        if rng.random() < 0.25:
+            # a constant that is a fan-out stem: feed one constant into two or three gates of the circuit
+            gates = [r[0] for r in cd["nodes"] if r[1] in ("and", "or", "xor", "nand", "nor", "xnor")]
+            if len(gates) >= 2:
+                cd = dict(cd)
+                cd["nodes"] = cd["nodes"] + [["tie", rng.choice(["0", "1"]), False]]
+                cd["edges"] = cd["edges"] + [["tie", g_] for g_ in rng.sample(gates, min(len(gates), rng.randint(2, 3)))]
         yield {"c": cd}
     yield {"lib": "c17"}
 
